@@ -12,6 +12,7 @@ import (
 	"verifharness/internal/core"
 	"verifharness/internal/deep"
 	"verifharness/internal/gen"
+	"verifharness/internal/opc"
 	"verifharness/internal/rng"
 )
 
@@ -860,11 +861,78 @@ func c09Case(c *core.Ctx) *core.Result {
 		if cg := core.Catch(func() { c09Readers(res, t, after, op, after.class()) }); cg != nil {
 			res.Add("readers-after-"+op+"/"+cls+"/"+cg.Key(), "a reading accessor panicked: "+cg.Msg, note, cg.Stack)
 		}
+		// the w:tbl of a saved document is the table the calls produced (read by the independent reader)
+		if len(res.Findings) == 0 && (step == nOps-1 || r.Chance(1, 8)) {
+			c09Saved(res, t, op, note)
+		}
 	}
 	res.Nontrivial = okEdits >= 3 && len(kinds) >= 2
 	res.Sig = origin + ":" + strings.Join(log, ",")
 	res.Sample = map[string]interface{}{"case": c.Case, "origin": origin, "ops": tail(log, 30), "final": viewOf(t).String()}
 	return res
+}
+
+// c09Saved serialises a document holding the table and compares the w:tbl found in the main part - rows, cells, w:gridSpan,
+// w:vMerge, the text of the cell's own paragraphs - with the table in memory.
+func c09Saved(res *core.Result, t *document.Table, op, note string) {
+	mem := viewOf(t)
+	sd := document.New()
+	sd.Body.AddElement(t)
+	var raw []byte
+	var err error
+	if cg := core.Catch(func() { raw, err = sd.ToBytes() }); cg != nil {
+		res.Add("saved/"+mem.class()+"/"+cg.Key(), "saving a document with the table panicked: "+cg.Msg, note, cg.Stack)
+		return
+	}
+	if err != nil {
+		return
+	}
+	root, probs := opc.Read(raw).Tree("word/document.xml")
+	if root == nil || len(probs) > 0 {
+		res.Add("saved/"+mem.class()+"/main-part-unreadable", "the main part of the saved document cannot be read", note)
+		return
+	}
+	body := root.Child(opc.NsW, "body")
+	if body == nil || body.Child(opc.NsW, "tbl") == nil {
+		res.Add("saved/"+mem.class()+"/table-missing", "the saved main part has no w:tbl", note)
+		return
+	}
+	sv := pview{Grid: mem.Grid}
+	for _, tr := range body.Child(opc.NsW, "tbl").ChildrenOf(opc.NsW, "tr") {
+		var row []pcell
+		for _, tc := range tr.ChildrenOf(opc.NsW, "tc") {
+			pc := pcell{Span: 1}
+			if pr := tc.Child(opc.NsW, "tcPr"); pr != nil {
+				if gs := pr.Child(opc.NsW, "gridSpan"); gs != nil {
+					if n, e := strconv.Atoi(strings.TrimSpace(gs.AttrW("val"))); e == nil && n >= 1 {
+						pc.Span = n
+					}
+				}
+				if vm := pr.Child(opc.NsW, "vMerge"); vm != nil {
+					pc.VM = "continue"
+					if vm.AttrW("val") == "restart" {
+						pc.VM = "restart"
+					}
+				}
+			}
+			var texts []string
+			for _, p := range tc.ChildrenOf(opc.NsW, "p") {
+				var sb strings.Builder
+				for _, tx := range p.Find(opc.NsW, "t") {
+					sb.WriteString(tx.Text)
+				}
+				texts = append(texts, sb.String())
+			}
+			pc.Text = strings.Join(texts, "\n")
+			pc.NP = len(texts)
+			row = append(row, pc)
+		}
+		sv.Rows = append(sv.Rows, row)
+	}
+	res.Count("saved_tables_compared_with_memory", 1)
+	if df := diffView(mem, sv, false); df != "" {
+		res.Add("saved/"+mem.class()+"/table-differs-from-memory", fmt.Sprintf("after %s the saved w:tbl differs from the table in memory: %s ; memory: %s ; saved: %s", op, df, mem.String(), sv.String()), note)
+	}
 }
 
 func aliasClass(al []string) string {
@@ -953,7 +1021,7 @@ func init() {
 		ID:    "C09",
 		Level: "exploration",
 		Rule: "operation scripts (InsertRow/AppendRow/DeleteRow(s)/InsertColumn/AppendColumn/DeleteColumn(s)/SetCellText/SetCellFormattedText/AddCellParagraph/AddCellFormattedText/ClearCellContent/ClearTable/MergeCellsHorizontal/Vertical/Range/UnmergeCells/AddNestedTable/CopyTable) over tables 1x1..8x8, " +
-			"with indices inside, at, beyond the bounds, negative and inverted, also on reopened tables and harness-built opened tables without grid / with ragged rows / spans / nested tables; every cell text is a unique id. After EVERY call: panic => violation; error => deep snapshot unchanged; success => " +
+			"with indices inside, at, beyond the bounds, negative and inverted, also on reopened tables and harness-built opened tables without grid / with ragged rows / spans / nested tables; every cell text is a unique id. After the last call and at random points a document holding the table is serialised and the w:tbl of its main part (rows, cells, w:gridSpan, w:vMerge, cell text; independent reader) must be the table in memory. After EVERY call: panic => violation; error => deep snapshot unchanged; success => " +
 			"result equals the physical rows-by-columns reference (exact for regular tables; for column edits through merges only invariants), invariants (row span = grid columns, >=1 paragraph per cell, vMerge continuation under a matching start) not newly broken, untouched cell ids conserved in order, readers agree; CopyTable: equal, no shared heap objects, original unchanged. " +
 			"Non-trivial: >=3 successful edits of >=2 kinds; distinct = origin + call sequence.",
 		Cases:         func(t string) int { return tierN(t, 10000, 80000) },
